@@ -11,6 +11,8 @@ vlib.proof_phase(ctx)
 _core_check.source_ordering(ctx)
 # the record built by the error stubs, as translated from core.hpp / detail.hpp on this run (Gen/GenErr.v)
 vlib.proof_phase_extra(ctx, 'Properties_C02_source')
+# which cell (definition / ambiguity stub / not-implemented stub) build_dispatch_table writes, as translated from compiler.hpp
+_core_check.source_tab(ctx)
 res = coresuite.dispatch_suite(ctx.tier, ctx.seed)
 cov = coresuite.summarize(ctx, res, 'C02')
 if ctx.broken and not ctx.violations:
